@@ -199,8 +199,26 @@ def mkdAll (r : Remote) : List PPath → M Remote
     let res := srvMkd r p
     if res.1 = 257 then mkdAll res.2 rest else .error (.status res.1)
 
+/-- the same loop with the extra test `path.name != ".."`: a parent reference is never asked for, nor created -/
+def needCreateSkip (r : Remote) (root : Nat) : List Str → M (List PPath)
+  | [] => .ok []
+  | x :: up =>
+    if x = dotdot then .ok []
+    else
+      match exists_ r ⟨root, (x :: up).reverse⟩ with
+      | .error e => .error e
+      | .ok true => .ok []
+      | .ok false =>
+        match needCreateSkip r root up with
+        | .error e => .error e
+        | .ok more => .ok (⟨root, (x :: up).reverse⟩ :: more)
+
+/-- the loop as the source has it now (`Generated.makeDirectoryStopsAtDotDot`) -/
+def needCreateNow (r : Remote) (root : Nat) (rev : List Str) : M (List PPath) :=
+  if Generated.makeDirectoryStopsAtDotDot then needCreateSkip r root rev else needCreate r root rev
+
 def makeDirectory (r : Remote) (p : PPath) : M Remote :=
-  match needCreate r p.root p.parts.reverse with
+  match needCreateNow r p.root p.parts.reverse with
   | .error e => .error e
   | .ok need => mkdAll r need.reverse
 
